@@ -145,13 +145,32 @@ def scenarios():
         {"app": 1, "unit": 2, "text": recv_m(0, 2) + wall(0, 2)}],
         "requests": [req(0, "recv", "M", 1, 0), req(1, "recv", "M", 2, 0)],
         "streams": [{"key": [1, 0, "recv"], "responses": M(3)}]})
+    # 16. a link layer that does not number its responses: two measure-responses that are equal field by field
+    S.append({"name": "unnumbered-equal-responses", "unnumbered": True, "apps": [{"app": 0, "unit": 2, "text": recv_m(0, 3) + wall(0, 3)}],
+              "requests": [req(0, "recv", "M", 3, 0)],
+              "streams": [{"key": [1, 0, "recv"], "responses": [{"kind": "M", "outcome": 1, "basis": 0, "bell": 0}] * 3}]})
+    # 17. a long-lived controller: application 0 is closed, its socket is re-opened by the next application and the network
+    #     stack hands out a different purpose id for it; the new requests are matched with the new responses
+    for tp in ("M", "K"):
+        first = recv_m(0, 1) if tp == "M" else recv_k(0, 1, [0])
+        second = recv_m(0, 2) if tp == "M" else recv_k(0, 1, [0, 1])
+        resp = (M(3) if tp == "M" else K(3, [1, 2, 3]))
+        resp = [dict(r) for r in resp]
+        for r in resp[1:]:
+            r["after_stop"] = 0
+        S.append({"name": "socket-reopened-new-purpose-id-" + tp, "apps": [
+            {"app": 0, "unit": 2, "text": first + wall(0, 1), "stop": True, "remap_on_stop": [[[1, 0], 9]]},
+            {"app": 1, "unit": 2, "text": second + wall(0, 2), "after": 0}],
+            "requests": [req(0, "recv", tp, 1, 0, [0] if tp == "K" else None), req(1, "recv", tp, 2, 0, [0, 1] if tp == "K" else None)],
+            "streams": [{"key": [1, 0, "recv"], "responses": resp}]})
     return S
 
 
 def gen_scenario(rng):
     """A random well-formed scenario: 1-2 applications, 1-4 requests (create/receive, keep/measure, 1-3 pairs, sockets 0-1,
     remotes 1-2), optionally target qubits that are busy when the request is issued and freed before the first wait,
-    waits in random order (interleaved with later requests when no target is busy)."""
+    waits in random order (interleaved with later requests when no target is busy); an application may be stopped by its
+    host as soon as its subroutine is done, while the other one still runs or still has early arrivals pending."""
     napps = rng.choice([1, 1, 2])
     nreq_total = rng.randrange(1, 5)
     per_app = [[] for _ in range(napps)]
@@ -216,7 +235,7 @@ def gen_scenario(rng):
             text += "".join(pending)
         if rng.random() < 0.3:
             text += "ret_arr @0\n"
-        apps.append({"app": ai, "unit": max(1, nextq) + rng.randrange(2), "text": text})
+        apps.append({"app": ai, "unit": max(1, nextq) + rng.randrange(2), "text": text, "stop": rng.random() < 0.45})
     streams = []
     for key in sorted(users):
         resp = []
@@ -229,7 +248,12 @@ def gen_scenario(rng):
                 if r["key"] == key:
                     resp += K(r["n"], [rng.randrange(4) for _ in range(r["n"])]) if r["tp"] == "K" else M(r["n"])
         streams.append({"key": list(key), "responses": resp})
-    return {"name": "generated", "apps": apps, "requests": requests, "streams": streams, "qlink10": rng.random() < 0.15}
+    sc = {"name": "generated", "apps": apps, "requests": requests, "streams": streams, "qlink10": rng.random() < 0.15}
+    if rng.random() < 0.15 and all(r["kind"] == "M" for s_ in streams for r in s_["responses"]):
+        sc["unnumbered"] = True
+        for s_ in streams:
+            s_["responses"] = [dict(s_["responses"][0]) for _ in s_["responses"]]
+    return sc
 
 
 def cases(ctx):
@@ -272,6 +296,7 @@ def run_case(ctx, case):
         if run is not None:
             ctx.count("deferred_deliveries_seen", run.deferred_events)
             ctx.count("early_arrivals_seen", run.early_arrivals)
+            ctx.count("applications_stopped_while_others_run", run.stops)
             nontrivial = bool(run.deferred_events or run.early_arrivals or len(sc["requests"]) >= 2)
         hv = h64([case.get("inline") or case["scenario"], picks])
         ctx.all_hashes.add(hv)
